@@ -210,16 +210,22 @@ fn weights_case(d: usize, size: usize, mixed: bool, mode: VerifyAction) -> Box<d
 /// A batch beyond the chunk limit: the weights of the members of a LATER chunk depend on the responses of that chunk
 /// (members 0..255 are plain valid proofs, members 256 and 257 carry markers; a response of member 257 is changed)
 fn late_chunk_case(mode: VerifyAction) -> Box<dyn Case> {
-    case(format!("late-chunk/{}", mode_name(mode)), move |_v| {
+    chunk_case(mode, false)
+}
+
+/// `full_chunk`: exactly 256 members (one full chunk), markers on the first and the last
+fn chunk_case(mode: VerifyAction, full_chunk: bool) -> Box<dyn Case> {
+    case(format!("{}/{}", if full_chunk { "full-chunk-of-256" } else { "late-chunk" }, mode_name(mode)), move |_v| {
         fg::clear_intern();
         let mut res = CaseResult::new("explored");
-        let mut batch: Vec<Member> = (0..256).map(|p| plain_member(p, 1, 1)).collect();
-        batch.push(member(256, 1, 1, "late"));
-        batch.push(member(257, 1, 1, "late"));
+        let (ia, ib) = if full_chunk { (0usize, 255usize) } else { (256usize, 257usize) };
+        let mut batch: Vec<Member> = (0..if full_chunk { 256 } else { 258 }).map(|p| plain_member(p, 1, 1)).collect();
+        batch[ia] = member(ia, 1, 1, "late");
+        batch[ib] = member(ib, 1, 1, "late");
         let weights_of = |b: &[Member]| -> Option<(Scalar, Scalar)> {
             let o = observe_mode(b, mode);
             let r = o.residual?;
-            Some((r.coeff(b[256].marker), r.coeff(b[257].marker)))
+            Some((r.coeff(b[ia].marker), r.coeff(b[ib].marker)))
         };
         let base = weights_of(&batch);
         res.executions += 1;
@@ -232,7 +238,7 @@ fn late_chunk_case(mode: VerifyAction) -> Box<dyn Case> {
             },
         };
         let base_ratio = w0 * w1.invert();
-        for who in [256usize, 257] {
+        for who in [ia, ib] {
             for pos in mutate::scalar_positions(&batch[who].rp) {
                 res.transitions += 1;
                 let mut b2 = batch.clone();
@@ -245,7 +251,7 @@ fn late_chunk_case(mode: VerifyAction) -> Box<dyn Case> {
                         if a * b.invert() == base_ratio {
                             res.violate(
                                 format!("member{}.{:?}", who, pos),
-                                format!("w_256/w_257 (second chunk of a 258-member batch) does not change when response {:?} of member {} changes", pos, who),
+                                format!("w_{}/w_{} ({}) does not change when response {:?} of member {} changes", ia, ib, if full_chunk { "a full chunk of 256 members" } else { "second chunk of a 258-member batch" }, pos, who),
                             );
                         }
                     },
@@ -520,6 +526,7 @@ pub fn run(rep: &mut Report) {
     }
     for mode in [VerifyAction::VerifyOnly, VerifyAction::RecoverAndVerify] {
         cases.push(late_chunk_case(mode));
+        cases.push(chunk_case(mode, true));
     }
     for d in [1usize, 3] {
         for size in [2usize, 3] {
